@@ -315,6 +315,36 @@ fn ark_curve_items(items: &mut Vec<Item>) {
         truth("same as reference && on curve && order q", same && on && ord)
     });
     it!("extension tower: Frobenius coefficients define x -> x^(p^i) on Fp2, Fp6, Fp12 (i = 0..11, every basis element)", frobenius_check());
+    it!("extension tower: NONRESIDUE of Fp2 / Fp6 / Fp12 byte-equal to the reference engine's, Fp2's is a quadratic non-residue, and each mul_*_by_nonresidue hook multiplies by exactly that constant", {
+        use ark_ec::bls12::Bls12Config;
+        use ark_ff::{Fp12Config, Fp2Config, Fp6Config};
+        type T2 = <decaf377_bls_config::Cfg as Bls12Config>::Fp2Config;
+        type T6 = <decaf377_bls_config::Cfg as Bls12Config>::Fp6Config;
+        type T12 = <decaf377_bls_config::Cfg as Bls12Config>::Fp12Config;
+        let same = ser(&<T2 as Fp2Config>::NONRESIDUE) == ser(&<ark_bls12_377::Fq2Config as Fp2Config>::NONRESIDUE)
+            && ser(&<T6 as Fp6Config>::NONRESIDUE) == ser(&<ark_bls12_377::Fq6Config as Fp6Config>::NONRESIDUE)
+            && ser(&<T12 as Fp12Config>::NONRESIDUE) == ser(&<ark_bls12_377::Fq12Config as Fp12Config>::NONRESIDUE);
+        let f = FieldFacts::fp().f;
+        let nr = <T2 as Fp2Config>::NONRESIDUE.big();
+        let qnr = f.pow(&nr, &((&f.p - 1u32) >> 1)) == &f.p - 1u32;
+        // hooks agree with the constants on a few elements
+        let xs: Vec<Fp> = vec![Fp::from(1u64), Fp::from(2u64), -Fp::from(7u64), Fp::from(0x1234_5678_9abc_def1u64).square()];
+        let mut hooks = true;
+        for x in &xs {
+            let mut y = *x;
+            <T2 as Fp2Config>::mul_fp_by_nonresidue_in_place(&mut y);
+            hooks &= y == *x * <T2 as Fp2Config>::NONRESIDUE;
+            let e2 = ark_ff::Fp2::<T2>::new(*x, x.square() + Fp::from(3u64));
+            let mut z = e2;
+            <T6 as Fp6Config>::mul_fp2_by_nonresidue_in_place(&mut z);
+            hooks &= z == e2 * <T6 as Fp6Config>::NONRESIDUE;
+            let e6 = ark_ff::Fp6::<T6>::new(e2, e2.square(), e2 + e2.square());
+            let mut w = e6;
+            <T12 as Fp12Config>::mul_fp6_by_nonresidue_in_place(&mut w);
+            hooks &= w == e6 * <T12 as Fp12Config>::NONRESIDUE;
+        }
+        truth("same as reference && non-residue && hooks consistent", same && qnr && hooks)
+    });
     let _ = (Fr::ZERO, Fp::ZERO);
 }
 
@@ -405,7 +435,7 @@ pub fn run(ctx: &Arc<Ctx>) {
         r.sample(&format!("C17/{}", it.name), || json!({"constant": it.name}));
     }
     r.set("constants_checked", json!(its.iter().map(|i| i.name.clone()).collect::<Vec<_>>()));
-    r.rule(format!("E3/C17[{BUILD}]: the complete finite list of {} public-constant obligations of this build, each recomputed from the modulus / curve equation in the reference; distinct = distinct obligations", its.len()));
+    r.rule(format!("E3/C17[{BUILD}]: the complete finite list of {} public-constant obligations of this build, each recomputed from the modulus / curve equation in the reference (plus: stored representation canonical, tower non-residues and their multiplication hooks consistent); distinct = distinct obligations", its.len()));
 }
 
 pub fn replay(case: &Value) -> (bool, Value) {
